@@ -21,7 +21,7 @@ import (
 
 // Val is a serialisable leaf value.
 //
-// T: str int uint float bool dur time err bytes nil map struct mok mfail mgarbage mempty
+// T: str int uint float bool dur time err bytes nil map struct mok mfail mgarbage mempty raw(json.RawMessage: well-formed incl. pretty-printed, or garbage)
 // ansi chan func tmok tmfail stringer nilerr niltm nilm (typed nil pointers whose value-receiver
 // Error / MarshalText / MarshalJSON method cannot be called)
 type Val struct {
@@ -130,6 +130,8 @@ func (v Val) anyOf() any {
 		return mOK{v.B}
 	case "mempty":
 		return mOK{nil}
+	case "raw":
+		return json.RawMessage(v.B)
 	case "ansi":
 		return logger.AnsiString{Prefix: "\x1b[34m", Value: string(v.B)}
 	case "chan":
